@@ -35,3 +35,104 @@ def _(run):
             run.vc('iterator-owned-list-is-never-aliased', z3.BoolVal(True), [], z3.BoolVal(not aliases), f'{fname}:{name}' + (' alias=' + ';'.join(aliases) if aliases else ''))
             run.vc('iterator-owned-list-is-bound-once', z3.BoolVal(True), [], z3.BoolVal(len(rebinds) == 1), f'{fname}:{name} bindings={len(rebinds)}')
     run.paths = n
+
+
+# ------------------------------------------------------------------ XMLSchemaBase.get_element: the declaration a (tag, schema path) pair denotes
+from pyvc.se import *
+t = Target('schemas.get_element', ['C20', 'C06'], F, 'XMLSchemaBase.get_element', strings=True,
+           note='the declaration returned for (tag, path): without a path (or a path that is the tag) the global element; for a path the declaration find() yields there '
+                'when it is an element named tag - a local declaration takes precedence over a global one of the same name; for a wildcard path `.../*` the step is '
+                'replaced by the tag first; otherwise the global element of that name (a substitute) or None; the result is never a declaration with another name',
+           assumes=['path=None is represented by the empty string: the body tests only the truthiness of path before any other use', 'find(path) (XPath on the schema, elementpath) and the global map are uninterpreted functions; isinstance(x, XsdElement) is an uninterpreted predicate'])
+
+
+@t.symbolic
+def _(run):
+    ex = run.exec(); st = new_state()
+    tag = z3.String('tag'); path = z3.String('path'); pnone = z3.Bool('path_none')
+    find = z3.Function('find', S, Ref); fnone = z3.Function('find_none', S, B); is_elem = z3.Function('is_XsdElement', Ref, B); name = z3.Function('name', Ref, S)
+    glob = z3.Function('global_element', S, Ref); gnone = z3.Function('no_global_element', S, B)
+    st.objf['elements'] = {}; st.objf['maps'] = {'elements': VObj('elements')}; st.objf['self'] = {'maps': VObj('maps')}
+    st.env.update(self=VObj('self'), tag=VStr(tag), path=VStr(path), namespaces=OPAQUE)
+    ex.callees['find'] = lambda e, s, r, a, k: VOpt(fnone(lift(a[0]).t), VRef(find(lift(a[0]).t)))
+    ex.callees['get'] = lambda e, s, r, a, k: VOpt(gnone(lift(a[0]).t), VRef(glob(lift(a[0]).t)))
+
+    def isinstance_(e, s, r, a, k):
+        x = a[0]
+        if isinstance(x, VOpt): return VBool(z3.And(z3.Not(x.none), is_elem(x.val.t)))
+        if isinstance(x, VRef): return VBool(is_elem(x.t))
+        if isinstance(x, VNone): return VBool(z3.BoolVal(False))
+        raise Unsupported('isinstance')
+    ex.callees['isinstance'] = isinstance_
+    ex.names['XsdElement'] = OPAQUE
+    orig_attr = ex.e_Attribute
+
+    def e_Attribute(e, s):
+        if ast.unparse(e) == 'xsd_element.name':
+            x = s.env['xsd_element']; x = x.val if isinstance(x, VOpt) else x
+            return VStr(name(x.t))
+        return orig_attr(e, s)
+    ex.e_Attribute = e_Attribute
+    pre = z3.And(z3.Length(tag) > 0, z3.Not(z3.Contains(tag, SV('/'))), z3.Not(pnone),
+                 z3.ForAll([z3.Const('g', S)], z3.Implies(z3.Not(gnone(z3.Const('g', S))), z3.And(is_elem(glob(z3.Const('g', S))), name(glob(z3.Const('g', S))) == z3.Const('g', S)))))
+    run.inputs.update(tag=tag, path=path)
+    outs = ex.run(st, pre)
+    plain = z3.Or(pnone, z3.Length(path) == 0, path == tag, path == z3.Concat(SV('/'), tag))
+    star = z3.And(z3.Not(plain), z3.SuffixOf(SV('*'), path))
+    eff = z3.If(star, z3.Concat(z3.SubString(path, 0, z3.Length(path) - 1), tag), path)
+    found_ok = z3.And(z3.Not(fnone(eff)), is_elem(find(eff)), name(find(eff)) == tag)
+    found_elem = z3.And(z3.Not(fnone(eff)), is_elem(find(eff)))
+
+    def res(v): return (v.none, v.val.t) if isinstance(v, VOpt) else ((z3.BoolVal(True), None) if isinstance(v, VNone) else (z3.BoolVal(False), v.t))
+
+    def spec(kind, v, s):
+        if kind != 'return': return z3.BoolVal(False)
+        none, ref = res(v)
+        is_glob = (none == gnone(tag)) if ref is None else z3.And(none == gnone(tag), z3.Implies(z3.Not(none), ref == glob(tag)))
+        is_found = z3.BoolVal(False) if ref is None else z3.And(z3.Not(none), ref == find(eff))
+        is_none = none
+        return z3.If(plain, is_glob, z3.If(found_ok, is_found, z3.If(z3.Or(star, found_elem), is_glob, is_none)))
+
+    def never_other_name(kind, v, s):
+        if kind != 'return': return z3.BoolVal(False)
+        none, ref = res(v)
+        return z3.BoolVal(True) if ref is None else z3.Implies(z3.Not(none), z3.And(is_elem(ref), name(ref) == tag))
+    run.post(ex, outs, pre, {'result-is-the-declaration-at-the-path-else-the-global-one': spec, 'result-is-an-element-named-tag': never_other_name})
+
+
+_GE = {}
+
+
+@t.concrete
+def _(inp):
+    import xmlschema
+    from xmlschema.validators import XsdElement
+    s = _GE.get('s')
+    if s is None:
+        s = _GE['s'] = xmlschema.XMLSchema10('''<xs:schema xmlns:xs="http://www.w3.org/2001/XMLSchema" targetNamespace="urn:t" xmlns:t="urn:t" elementFormDefault="qualified">
+ <xs:element name="code" type="xs:int"/><xs:element name="head" type="xs:token"/><xs:element name="member" type="xs:NCName" substitutionGroup="t:head"/>
+ <xs:element name="r"><xs:complexType><xs:sequence><xs:element name="code" type="xs:string" maxOccurs="unbounded"/><xs:element ref="t:head" minOccurs="0"/>
+   <xs:element name="only" type="xs:date" minOccurs="0"/></xs:sequence></xs:complexType></xs:element></xs:schema>''')
+    ns = {'t': 'urn:t'}; tag, path = inp['tag'], inp['path'] or None
+    got = s.get_element(tag, path, ns)
+    glob = s.maps.elements.get(tag)
+    if not path or path == tag or path == '/' + tag: want = glob
+    else:
+        eff = path[:-1] + tag if path.endswith('*') else path
+        try: found = s.find(eff, ns)
+        except Exception: return dict(ok=True, observed='path not evaluable', required='-')
+        if isinstance(found, XsdElement) and found.name == tag: want = found
+        elif path.endswith('*') or isinstance(found, XsdElement): want = glob
+        else: want = None
+    failed = []
+    if got is not want: failed.append('result-is-the-declaration-at-the-path-else-the-global-one')
+    if got is not None and got.name != tag: failed.append('result-is-an-element-named-tag')
+    return dict(ok=not failed, observed=repr(got), required=repr(want), failed=failed)
+
+
+@t.scope
+def _(tier, rng):
+    T = '{urn:t}'
+    for tag in (T + 'code', T + 'head', T + 'member', T + 'only', T + 'r', T + 'nope'):
+        for path in ('', tag, '/' + tag, '/t:r/*', '/t:r/t:code', '/t:r/t:head', '/t:r/t:only', '/t:r', '/t:r/t:nope', '/t:nope/*', 't:r/*', '/t:r/t:code/*'):
+            yield dict(tag=tag, path=path)
